@@ -132,6 +132,27 @@ def main(args):
     if fps[0] != fps[1]:
         bad.append("E2: same configuration, different fingerprint "
                    "(addresses not reproducible: setarch -R unavailable?)")
+    # ... and the same addresses after the same command history (code
+    # generation included): address-dependent findings must replay
+    from simkit import mrecipe, srecipe
+    hist = []
+    for _ in range(2):
+        w = fleet.Worker(cfg["hashseed"], cfg["prelude"], "det")
+        probes = []
+        for k in range(24):
+            if k % 2:
+                w.call("c17_single", with_c=False, recipe=srecipe.gen_recipe(
+                    random.Random(f"det{k}"), "codegen"))
+            else:
+                w.call("c17_multi", sim_seed=k, with_codegen=(k % 4 == 0),
+                       recipe=mrecipe.gen_recipe(random.Random(f"det{k}")))
+            if k % 6 == 5:
+                probes.append(w.call("addr_probe"))
+        w.close()
+        hist.append(probes)
+    if hist[0] != hist[1]:
+        bad.append("E2: same configuration and command history, different "
+                   "object addresses afterwards")
     conf = {"sessions": 1, "workers": 2, "single": 6, "multi": 20}
     recs = []
     for _ in range(2):
